@@ -6,6 +6,33 @@ from . import tracesleg
 INVS = ["C13_MissingExact", "C13_StatesPartition", "C13_Recompose", "C13_MissingValues", "EmitSplit"]
 
 
+def split_corpus(chk, pid, backends, n):
+    """Split records (exhaustive 1 intermediate + simulated 3 intermediates) replayed for the given backends."""
+    quick = chk.tier == "quick"
+    consts = dict(CONSTS, NInter=1, FreeSchedule=False, EmitMod=29 if quick else 7)
+    res = tlc.run_tlc("MC_Struct", tlc.make_cfg(constants=consts, invariants=INVS), workers=chk.nproc, timeout=3000, constants_for_summary=consts)
+    recs = res.records
+    res.records = []
+    chk.add_tlc(res)
+    consts3 = dict(CONSTS, NInter=3, FreeSchedule=False, EmitMod=3)
+    res3 = tlc.run_tlc("MC_Struct", tlc.make_cfg(constants=consts3, invariants=["C13_MissingExact", "EmitSplit"]), workers=chk.nproc,
+                       timeout=900, simulate={"num": 10 if quick else 60, "depth": 8, "seed": chk.seed + 5}, constants_for_summary=consts3)
+    chk.add_tlc(res3)
+    recs += res3.records
+    res3.records = []
+    import random
+    uniq = list({modelcase.render_text(r["blocks"]): r for r in recs}.values())
+    random.Random(chk.seed).shuffle(uniq)
+    for backend in backends:
+        stats, bad = splitcase.replay(uniq[:n], backend, chk.nproc)
+        chk.replayed += stats["halves"]
+        chk.extra.setdefault("split_corpus", []).append({"backend": backend, **stats, "mismatch_records": len(bad)})
+        for b in bad:
+            sig = f"{pid}:{backend}:{b['tag']}:{b.get('half', '')}:{b.get('fn', b.get('exception', ''))}:model={model_sig(b.get('text', ''))}"
+            chk.violation(sig, b, f"{backend} split ({b.get('half')} of component {b.get('component')}): {b['tag']} "
+                          + str({k: v for k, v in b.items() if k not in ('text', 'tag', 'backend', 'half', 'component')})[:220])
+
+
 def main(chk: core.Check, replay):
     if replay:
         return core.replay_generic(chk, replay)
